@@ -28,7 +28,8 @@ LitLexemes == << S("i5"), S("i-5"), S("i0"), S("i1701411834604692317316873037158
                  Q \o S("s") \o Q, Q \o S("a\\\"b") \o Q, Q \o S("a\\\\") \o Q, Q \o S("\\\\") \o Q, Q \o S("a\\nb") \o Q,
                  Q \o S("\\t") \o Q, Q \o S("//x") \o Q, Q \o <<233, 20013, 128512>> \o Q, Q \o Q, Q \o S("a'b") \o Q,
                  Q \o S("\\\"") \o Q, Q \o S("a") \o <<10>> \o S("b") \o Q, Q \o S("\\u{0}") \o Q, Q \o S("x\\\\\\\"y") \o Q,
-                 Q \o <<233, 92, 34, 20013, 92, 92>> \o Q, Q \o S("2015-07-30T03:26:13Z") \o Q, Q \o S("1.5") \o Q >>
+                 Q \o <<233, 92, 34, 20013, 92, 92>> \o Q, Q \o S("2015-07-30T03:26:13Z") \o Q, Q \o S("1.5") \o Q,
+                 Q \o <<233, 92, 92, 110, 111>> \o Q, Q \o <<20013, 128512, 92, 92, 116, 92, 34>> \o Q >>
 Leaf(lexeme) == Val(Denote(Lex(lexeme).toks[1]).v)
 
 A == Ref(S("a"))
